@@ -27,7 +27,8 @@
      every from-identifier contributes a name.
    * [ from nodes ] / [ to nodes ]: [<identifier>:]<atomname> [{attributes}] adds one atom with the identifier's attributes.
    * [ from edges ] / [ to edges ]: two atom references; each must denote exactly one atom, and not the same.
-   * [ mapping ]: <from atom> <to atom> [integer weight, default 1].   [ reference atoms ]: <to atom> <from atom>.
+   * [ mapping ]: <from atom> <to atom> [integer weight, default 1]; a pair written twice keeps the last weight (the
+     shipped files repeat lines).   [ reference atoms ]: <to atom> <from atom>, the from atom among those mapped to it.
    * an atom reference without identifier uses the only identifier of that direction, else the last one used.
    * macros ($name) are substituted textually in every content line; they persist over mappings.
    * block_from only keeps mapped atoms.
